@@ -8,7 +8,7 @@ capacity, any number of operations. The C++11-style weak memory model (sufficien
 Acquire/Release orderings) is NOT covered; the orderings are only pinned by the translator anchors.
 -/
 import RtcModel.Lemmas.Spsc
-import RtcModel.SpscTrack
+import RtcModel.Lemmas.SpscTrack
 
 namespace RtcModel.Theorems.C20
 open RtcModel.Spsc RtcModel.SpscTrack RtcModel.C20Word RtcModel.Generated
@@ -66,6 +66,70 @@ example :
        .push (0, 8), .push (0, 8), .push (0, 8), .push (0, 8), .push (0, 8)]
     NoWrap s.ring ∧ s.ring.outs = [(0, 7)] ∧ s.ring.drop.2 = [(0, 8)] ∧ s.pu = none ∧ s.po = none := by
   refine ⟨Or.inl (by decide), by decide, by decide, by decide, by decide⟩
+
+/-! ### the track queue: any number of producers (cloned / shared handles), one consumer, `stop()` -/
+
+/-- the initial state of the current code: `sample_track(kind, cap)` on a machine with word modulus `W` -/
+abbrev init (cap W : Nat) : St := St.init Variant.cur cap W 0
+
+/-- **track_invariant**: after ANY interleaving (`ls`) of the individual shared-memory accesses of any
+number of producer threads (each label names a producer index; handles are created by `cloneTo` and
+dropped by `dropSrc` at arbitrary points; operations `send`, `send_many`, `try_send`), the consumer's
+`recv` and `stop()`, for every capacity: the lock discipline holds (at most one thread is inside
+`push`, at most one inside `pop`) and the ring invariant holds for the two lock holders. -/
+theorem track_invariant (cap W : Nat) (h0 : 0 < cap) (h1 : cap < W) (ls : List Label)
+    (hw : NoWrap (run (init cap W) ls).ring) : TInv (run (init cap W) ls) :=
+  run_TInv _ ls (TInv.init cap W h0 h1) hw
+
+/-- **multi_producer_safe** (which contains **slot_safety** for one producer): for every number of
+producers, every capacity and every schedule, no access ever reads an uninitialised slot or
+overwrites an initialised one, and the values handed out by `pop` (to the consumer or to a
+drop-oldest producer) are exactly the first `hcount` values written, in order. -/
+theorem multi_producer_safe (cap W : Nat) (h0 : 0 < cap) (h1 : cap < W) (ls : List Label)
+    (hw : NoWrap (run (init cap W) ls).ring) :
+    (run (init cap W) ls).ring.bad = [] ∧
+    (run (init cap W) ls).ring.outs = (run (init cap W) ls).ring.log.take (run (init cap W) ls).ring.hcount :=
+  ⟨(track_invariant cap W h0 h1 ls hw).ring.noBad, (track_invariant cap W h0 h1 ls hw).ring.outsEq⟩
+
+/-- **mutual_exclusion**: in every reachable state at most one thread is between the accesses of a
+`push` (it holds `push_lock`) and at most one between the accesses of a `pop` (it holds `pop_lock`). -/
+theorem mutual_exclusion (cap W : Nat) (h0 : 0 < cap) (h1 : cap < W) (ls : List Label)
+    (hw : NoWrap (run (init cap W) ls).ring) (i j : Nat) :
+    let s := run (init cap W) ls
+    (holdsPush (s.pp i) = true → holdsPush (s.pp j) = true → i = j) ∧
+    (holdsPopP (s.pp i) = true → holdsPopC s.cp = false) := by
+  have h := (track_invariant cap W h0 h1 ls hw).l
+  refine ⟨fun a b => ?_, fun a => ?_⟩
+  · have := (h.plockIff i).1 a; have := (h.plockIff j).1 b; simp_all
+  · have := (h.poplockP i).1 a
+    cases hc : holdsPopC (run (init cap W) ls).cp with
+    | false => rfl
+    | true => have := h.poplockC.1 hc; simp_all
+
+/-- **slot_safety_drop**: whenever no thread is inside `push`/`pop` (in particular when the last
+`Arc` of the ring is released), `Drop for SpscRing` drops exactly the queued samples, each once. -/
+theorem slot_safety_drop (cap W : Nat) (h0 : 0 < cap) (h1 : cap < W) (ls : List Label)
+    (hw : NoWrap (run (init cap W) ls).ring)
+    (hq : (run (init cap W) ls).plock = none ∧ (run (init cap W) ls).poplock = none) :
+    let r := (run (init cap W) ls).ring
+    r.drop.2 = r.log.drop r.hcount ∧ r.drop.1.bad = [] ∧ ∀ i, i < r.cap → r.drop.1.slots i = none := by
+  have h := (track_invariant cap W h0 h1 ls hw).ring
+  have e1 : (run (init cap W) ls).puView = none := by simp [St.puView, hq.1]
+  have e2 : (run (init cap W) ls).poView = none := by simp [St.poView, hq.2]
+  rw [e1, e2] at h
+  exact ring_drop_spec h hw
+
+/-- non-vacuity: three producers (two clones), a full capacity-1 queue with drop-oldest, a consumer:
+the hypotheses hold and the run delivers a sample -/
+example :
+    let s := run (init 1 (2 ^ 64))
+      [.prod 0 (some (.cloneTo 1)), .prod 0 none, .prod 1 (some (.cloneTo 2)), .prod 1 none,
+       .prod 0 (some (.send [1])), .prod 2 (some (.trySend 1)), .prod 0 none, .prod 2 none, .prod 0 none,
+       .prod 0 none, .prod 0 none, .cons true, .prod 0 none, .prod 0 none, .prod 0 none,
+       .prod 2 none, .prod 2 none, .prod 2 none, .prod 2 none, .cons false, .cons false, .cons false,
+       .cons false, .cons false, .cons false, .cons false, .cons false, .cons false]
+    NoWrap s.ring ∧ s.recvd = [(0, 1)] ∧ s.rejected = [(2, 1)] := by
+  refine ⟨Or.inl (by decide), by decide, by decide⟩
 
 /-! ### findings (earlier code versions) -/
 
